@@ -32,7 +32,7 @@ class Analysis:
     def __init__(self, run):
         self.run = run
         self.findings = []
-        self.views = wire.extract(run.netw)
+        self.views = wire.extract(run.netw, 'pre:' if run.scn.get('prelude') else None)
         self.seated = {}          # seat -> ConnView of the seated connection
         self.decisions = []       # per board: {'calls': [...], 'cards': [...], 'complete': bool}
         self.offending = None     # description of the first non-conforming client action
@@ -789,7 +789,7 @@ def check_c19_session_framing(an):
         sent[(cid, 'client')] = [ln for _, ln, _ in v.s2c]
     got = {}
     for cid, side, msg, exc in parserec.RECV_LOG:
-        if cid is None or msg is None:
+        if cid is None or msg is None or cid not in an.views:
             continue
         got.setdefault((cid, side), []).append(msg)
     for key in sorted(got, key=lambda k: (k[0], str(k[1]))):
